@@ -535,7 +535,7 @@ impl CooperativeUtils {
                     } => unreachable!(),
                 }
             })
-            .buffer_unordered(max_concurrent)
+            .buffered(max_concurrent) // results in the order of `operations`
             .collect::<Vec<_>>()
             .await;
 
